@@ -368,7 +368,7 @@ class ConformerGenerator(object):
                     rejected.append(fit_ind)
                     break
                 else:
-                    these_rmsds[-j - 1] = this_rmsd
+                    these_rmsds[j] = this_rmsd
             else:
                 rmsds[fit_ind, accepted] = these_rmsds
                 rmsds[accepted, fit_ind] = these_rmsds
